@@ -12,6 +12,7 @@
 -/
 import Hv.Query.Lemmas
 import Hv.Query.Bucket
+import Hv.Query.SameKind
 
 namespace Hv.C08
 open Hv.Query
@@ -155,25 +156,29 @@ def pagingGoodB (cfg : Cfg) : Bool :=
   (cfg.bucketPagingAfterFilter && cfg.scanPagingAfterFilter) ||
   (!cfg.bucketPagingAfterFilter && !cfg.scanPagingAfterFilter && cfg.pagedQueriesBypass)
 
-/-- the facts of the two routes are sound -/
-def goodStoreB (cfg : Cfg) : Bool :=
-  legGoodB cfg && cfg.planOrBypassOnSubGroups && cfg.lookupInDedupes && cfg.unionDedupes &&
+/-- the facts of the shared machinery of the two routes (everything but how a leg compares) -/
+def routesGoodB (cfg : Cfg) : Bool :=
+  cfg.planOrBypassOnSubGroups && cfg.lookupInDedupes && cfg.unionDedupes &&
   pagingGoodB cfg && cfg.labelReattach && cfg.bucketChecksAttr && cfg.bucketWindowTimeOnly
+
+/-- the facts of the two routes are sound -/
+def goodStoreB (cfg : Cfg) : Bool := legGoodB cfg && routesGoodB cfg
 
 /-- all facts sound -/
 def goodB (cfg : Cfg) : Bool := goodStoreB cfg && trackGoodB cfg
 
 /-- **Full theorem (repaired facts)**: `paging_agree` and `labels_agree` together — same records,
     same order, same labels, for every store and every query. -/
-theorem holdsStore_of_good (cfg : Cfg) (h : goodStoreB cfg = true) : HoldsStore cfg := by
-  simp only [goodStoreB, Bool.and_eq_true] at h
-  obtain ⟨⟨⟨⟨⟨⟨⟨hleg, hb⟩, hd1⟩, hd2⟩, hpg⟩, hlab⟩, hattr⟩, hwin⟩ := h
-  intro store q
+theorem agree_of_legs (cfg : Cfg) (h : routesGoodB cfg = true) (store : List Rec) (q : Query)
+    (hlegs : ∀ g, q.filter = some g → ∀ r ∈ store, LegsAgree cfg r (topLeaves g)) :
+    bucketRoute cfg store q = scanRoute cfg store q := by
+  simp only [routesGoodB, Bool.and_eq_true] at h
+  obtain ⟨⟨⟨⟨⟨⟨hb, hd1⟩, hd2⟩, hpg⟩, hlab⟩, hattr⟩, hwin⟩ := h
   simp only [pagingGoodB, Bool.or_eq_true, Bool.and_eq_true, Bool.not_eq_true'] at hpg
   rcases hpg with ⟨hp1, hp2⟩ | ⟨⟨hp1, hp2⟩, hby⟩
   · have ha : Aligned cfg store q :=
       { dedupIn := hd1, dedupUnion := hd2, paging := Or.inl ⟨hp1, hp2⟩, attr := Or.inl hattr, window := Or.inl hwin }
-    exact (routes_agree_of cfg hb store q ha (fun g _ r _ => leg_agree cfg hleg r _)).2 hlab
+    exact (routes_agree_of cfg hb store q ha hlegs).2 hlab
   · by_cases hpaged : (q.from_ != 0 || q.limit != 0) = true
     · -- a paged query is answered by the scan route itself
       unfold bucketRoute
@@ -185,7 +190,31 @@ theorem holdsStore_of_good (cfg : Cfg) (h : goodStoreB cfg = true) : HoldsStore 
         exact hpaged
       have ha : Aligned cfg store q :=
         { dedupIn := hd1, dedupUnion := hd2, paging := Or.inr ⟨hp1, hp2, h0.1, h0.2⟩, attr := Or.inl hattr, window := Or.inl hwin }
-      exact (routes_agree_of cfg hb store q ha (fun g _ r _ => leg_agree cfg hleg r _)).2 hlab
+      exact (routes_agree_of cfg hb store q ha hlegs).2 hlab
+
+theorem holdsStore_of_good (cfg : Cfg) (h : goodStoreB cfg = true) : HoldsStore cfg := by
+  simp only [goodStoreB, Bool.and_eq_true] at h
+  intro store q
+  exact agree_of_legs cfg h.2 store q (fun g _ r _ => leg_agree cfg h.1 r _)
+
+/-- every hinted leg of the filter sees, in every record of the store, a field that is not a number
+    or is a number of the kind it compares with (`Hv/Query/SameKind.lean`) -/
+def SameKindStore (store : List Rec) (q : Query) : Prop :=
+  ∀ g, q.filter = some g → ∀ r ∈ store, ∀ l ∈ topLeaves g, sameKindRec r l = true
+
+/-- **Partial theorem: same-kind operands.**  Whatever equality the scan route uses: on a store whose
+    hinted fields are all same-kind for the query's legs, the two routes return the same items. -/
+theorem routes_agree_same_kind (cfg : Cfg) (h : routesGoodB cfg = true) (hl : legBaseB cfg = true)
+    (store : List Rec) (q : Query) (hk : SameKindStore store q) :
+    bucketRoute cfg store q = scanRoute cfg store q :=
+  agree_of_legs cfg h store q (fun g hq r hr l hlm hh hi => leg_agree_of_same_kind cfg hl l hh hi r (hk g hq r hr l hlm))
+
+/-- …also over the buckets as a history left them -/
+theorem routesS_agree_same_kind (cfg : Cfg) (h : routesGoodB cfg = true) (hl : legBaseB cfg = true) (ht : trackGoodB cfg = true)
+    (hist : List MOp) (q : Query) (hk : SameKindStore (runB cfg hist).store q) :
+    bucketRouteS cfg (runB cfg hist) q = scanRoute cfg (runB cfg hist).store q := by
+  rw [bucketRouteS_run cfg ht hist q]
+  exact routes_agree_same_kind cfg h hl _ q hk
 
 /-- with every mutation reaching the buckets, the stateful accelerated route is the specified one -/
 theorem holdsS_of (cfg : Cfg) (hs : HoldsStore cfg) (ht : trackGoodB cfg = true) : HoldsS cfg := by
@@ -199,13 +228,20 @@ theorem holds_of_good (cfg : Cfg) (h : goodB cfg = true) : Holds cfg := by
 
 /-- what remains proved whatever the facts are: the conditional agreement of keys -/
 def Partial (cfg : Cfg) : Prop :=
-  cfg.planOrBypassOnSubGroups = true →
-  ∀ (store : List Rec) (q : Query), Aligned cfg store q →
-    (∀ g, q.filter = some g → ∀ r ∈ store, LegsAgree cfg r (topLeaves g)) →
-    keysOf (bucketRoute cfg store q) = keysOf (scanRoute cfg store q)
+  (cfg.planOrBypassOnSubGroups = true →
+    ∀ (store : List Rec) (q : Query), Aligned cfg store q →
+      (∀ g, q.filter = some g → ∀ r ∈ store, LegsAgree cfg r (topLeaves g)) →
+      keysOf (bucketRoute cfg store q) = keysOf (scanRoute cfg store q)) ∧
+  -- same-kind operands: full agreement, on any store and after any history
+  (routesGoodB cfg = true → legBaseB cfg = true →
+    (∀ (store : List Rec) (q : Query), SameKindStore store q → bucketRoute cfg store q = scanRoute cfg store q) ∧
+    (trackGoodB cfg = true → ∀ (hist : List MOp) (q : Query), SameKindStore (runB cfg hist).store q →
+      bucketRouteS cfg (runB cfg hist) q = scanRoute cfg (runB cfg hist).store q))
 
 theorem routes_agree_partial (cfg : Cfg) : Partial cfg :=
-  fun hb store q ha hl => (routes_agree_of cfg hb store q ha hl).1
+  ⟨fun hb store q ha hl => (routes_agree_of cfg hb store q ha hl).1,
+   fun h hl => ⟨fun store q hk => routes_agree_same_kind cfg h hl store q hk,
+                fun ht hist q hk => routesS_agree_same_kind cfg h hl ht hist q hk⟩⟩
 
 /-! ### 3. counterexamples: witness queries evaluated in the model -/
 
@@ -416,6 +452,25 @@ theorem witness_bucket_drops_pending :
               .build [.field "a"], .drain [.field "a"]]
     keysOf (bucketRouteS cfg (runB cfg h) qA1) = ["k1"] ∧ keysOf (scanRoute cfg (runB cfg h).store qA1) = ["k1", "k2"] ∧
     bucketRouteS repaired (runB repaired h) qA1 = scanRoute repaired (runB repaired h).store qA1 := by decide
+
+/-- **What holds on the current tree for equality**: with same-kind operands (the field is not a
+    number, or a number of the compare value's kind) the accelerated route over the buckets as any
+    history left them and the full scan return the same items — although `scanEqCanonical` is false. -/
+theorem current_same_kind (hist : List MOp) (q : Query) (hk : SameKindStore (runB current hist).store q) :
+    bucketRouteS current (runB current hist) q = scanRoute current (runB current hist).store q :=
+  routesS_agree_same_kind current (by decide) (by decide) (by decide) hist q hk
+
+/-- non-vacuity: integers against an integer compare value are same-kind (and the answer is not empty);
+    the float of the witness is not -/
+example : SameKindStore [recA "k1" 1, recA "k2" 2] qA1 := by
+  intro g hq r hr l hl
+  simp only [qA1, qKey, Option.some.injEq] at hq
+  subst hq
+  simp only [topLeaves, Group.leaves, Group.subs, List.flatMap_nil, List.append_nil, List.mem_singleton] at hl
+  subst hl
+  simp only [List.mem_cons, List.not_mem_nil, or_false] at hr
+  rcases hr with rfl | rfl <;> decide
+example : sameKindRec (rec "k1" (body [("a", .flt 23)]) 1) (leaf [.field "a"] .eq (.i64 5)) = false := by decide
 
 /-- `bucket_tracks_store`, restated: under the facts of the tree every settled bucket files exactly
     the live records under the canonical key of their current body, after every history. -/
